@@ -22,8 +22,8 @@ from verus_registry import Lost
 
 VDIR = os.path.join(shv.VERIF, 'verus', 'pollsignal')
 SRC = 'src/iterator/backend.rs'
-GHOST_LINE = re.compile(r'^\s*(#\[verifier::exec_allows_no_decreases_clause\]|requires |ensures\s*$|invariant_except_break\s*$|invariant\s*$)')
-CONT_LINE = re.compile(r'^\s{8,}(pending_only_if_armed|closed_only_if_closed|signal_from_scan|err_from_callback|!tr@|tr@)')
+GHOST_LINE = re.compile(r'^\s*(#\[verifier::exec_allows_no_decreases_clause\]|proof \{ assert\(|requires |ensures\s*$|invariant_except_break\s*$|invariant\s*$)')
+CONT_LINE = re.compile(r'^\s{8,}(poll_pending_post|pending_only_if_armed|closed_only_if_closed|signal_from_scan|err_from_callback|!tr@|tr@)')
 
 HEADER = '''// GENERATED on every run by lib/verus_pollsignal.py from %s - do not edit
 #![allow(unused_imports, dead_code, unknown_lints, non_camel_case_types, private_interfaces, unused_variables, unused_mut)]
@@ -81,6 +81,37 @@ def rewrite(text):
     return text, notes
 
 
+def rewrite_pp(text):
+    """Q0-Q3 on poll_pending"""
+    notes = []
+    sig = '    pub fn poll_pending<F>(&mut self, has_signals: &mut F) -> Result<Option<Pending<E>>, Error>'
+    if text.split('\n')[0] != sig:
+        raise Lost('anchor lost: first line of poll_pending is not `%s`' % sig.strip())
+    text = text.replace(sig, '    pub fn poll_pending<F>(&mut self, has_signals: &mut F, tr: &mut Ghost<PS<E::Output>>) -> (ret: Result<Option<Pending<E>>, Error>)', 1)
+    notes.append('Q0: ghost parameter `tr` appended to the signature of poll_pending, result named `ret`')
+    code = re.sub(r'//.*$', '', text, flags=re.M)
+    if re.search(r'\b(loop|for|while)\b', code.replace('for<', '')):
+        raise Lost('anchor lost in poll_pending: a loop appeared (the contract is for a loop-free body)')
+    for tag, pat, rep, allpat in (('Q1', r'\.is_closed\(\)', '.is_closed(tr)', r'\bis_closed\('),
+                                  ('Q2', r'\bhas_signals\(self\.get_read_mut\(\)\)', 'verif_call_cb(has_signals, self.get_read_mut(), tr)', r'\bhas_signals\('),
+                                  ('Q3', r'\bself\.pending\(\)', 'self.pending(tr)', r'\.pending\(')):
+        body_code = code.split('\n', 1)[1]
+        total = len(re.findall(allpat, body_code))
+        ncode = len(re.findall(pat, body_code))
+        text, n = re.subn(pat, rep, text)
+        if n < 1 or ncode != total:
+            raise Lost('anchor lost in poll_pending: %d of %d calls matching /%s/ have the expected shape /%s/' % (ncode, total, allpat, pat))
+        notes.append('%s: %d x /%s/ -> %s' % (tag, n, pat, rep))
+    body = text.split('\n', 1)[1]
+    if re.search(r'\b(tr|ret)\b', re.sub(r'//.*$', '', re.sub(r', tr\)|\(tr\)', ')', body), flags=re.M)):
+        raise Lost('anchor lost in poll_pending: an identifier `tr` / `ret` is used by the code')
+    known = {'is_closed', 'verif_call_cb', 'get_read_mut', 'pending', 'Some', 'Ok', 'Err', 'FnMut'}
+    calls = set(re.findall(r'\b([A-Za-z_]\w*)\s*\(', re.sub(r'//.*$', '', body, flags=re.M))) - known - {'if', 'match', 'return'}
+    if calls:
+        raise Lost('anchor lost in poll_pending: calls outside the contract vocabulary: %s' % ', '.join(sorted(calls)))
+    return text, notes
+
+
 def build(sc):
     src_path = os.path.join(sc.path, SRC)
     if not os.path.exists(src_path):
@@ -94,6 +125,7 @@ def build(sc):
         VR.take_item(lines, items, notes, 'enum', 'PollResult')
         VR.take_item(lines, items, notes, 'struct', 'SignalIterator')
         VR.take_item(lines, items, notes, 'fn', 'poll_signal', finder=_find_method)
+        VR.take_item(lines, items, notes, 'fn', 'poll_pending', finder=_find_method)
     finally:
         VR.SRC = save
     impl_hdr = 'impl<SD, E: Exfiltrator> SignalIterator<SD, E> {'
@@ -101,8 +133,10 @@ def build(sc):
     if len(hdrs) != 1 or not hdrs[0] < items['poll_signal']['first_line']:
         raise Lost('anchor lost: `%s` not found (once) above poll_signal' % impl_hdr)
     notes = [n for n in notes if 'attributes dropped' not in n] + ['doc comments and derive/other attributes of the extracted items are dropped; `Exfiltrator`, `AsRawFd`, `SignalDelivery` (only its `handle` field is named) and `Handle` are stand-ins declared in the prelude']
-    rewritten, rnotes = rewrite(items['poll_signal']['text'])
-    notes += rnotes
+    sd_hdr = ['impl<R, E: Exfiltrator> SignalDelivery<R, E>', 'where', "    R: 'static + AsRawFd + Send + Sync,", '{']
+    sd_at = [i for i in range(len(lines) - 3) if lines[i:i + 4] == sd_hdr]
+    if len(sd_at) != 1 or not sd_at[0] < items['poll_pending']['first_line']:
+        raise Lost('anchor lost: the impl header of SignalDelivery (4 lines) not found once above poll_pending')
     ov = json.load(open(os.path.join(VDIR, 'overlay.json')))
     gen = [HEADER % SRC]
     lineno = lambda: sum(x.count('\n') + 1 for x in gen)  # noqa: E731
@@ -111,27 +145,31 @@ def build(sc):
     gen.append(items['PollResult']['text'])
     gen.append(items['SignalIterator']['text'])
     gen.append(open(os.path.join(VDIR, 'spec_p.rs')).read().rstrip('\n'))
-    gen.append('// ---- EXTRACTED fn poll_signal (line %d of %s), rewrites P0-P4, + contract overlay' % (items['poll_signal']['first_line'], SRC))
-    gen.append(impl_hdr)
-    out_lines, flags = VR.splice('poll_signal', rewritten, ov['functions']['poll_signal'], ov['preamble'])
-    if '\n'.join(l for l, f in zip(out_lines, flags) if not f) != rewritten:
-        raise Lost('internal: erasure check failed for fn poll_signal')
-    for l, f in zip(out_lines, flags):
-        if f and not (GHOST_LINE.match(l) or CONT_LINE.match(l)):
-            raise Lost('internal: overlay line is not ghost code: %r' % l)
-    base = lineno()
-    obl_at, n_inserted = {}, 0
-    for k, (l, f) in enumerate(zip(out_lines, flags)):
-        m = re.search(r'// @OBL (C\d\d\.[A-Za-z0-9\-]+)', l)
-        if f and m:
-            obl_at[base + k + 1] = m.group(1)
-        n_inserted += 1 if f else 0
-    fn_span = {'poll_signal': (base + 1, base + len(out_lines))}
-    gen.append('\n'.join(out_lines))
-    gen.append('}\n} // verus!\nfn main() {}')
+    obl_at, fn_span, n_inserted = {}, {}, 0
+    for fn, rw, hdr in (('poll_pending', rewrite_pp, '\n'.join(sd_hdr)), ('poll_signal', rewrite, impl_hdr)):
+        rewritten, rnotes = rw(items[fn]['text'])
+        notes += rnotes
+        gen.append('// ---- EXTRACTED fn %s (line %d of %s), rewritten as stated, + contract overlay' % (fn, items[fn]['first_line'], SRC))
+        gen.append(hdr)
+        out_lines, flags = VR.splice(fn, rewritten, ov['functions'][fn], ov['preamble'])
+        if '\n'.join(l for l, f in zip(out_lines, flags) if not f) != rewritten:
+            raise Lost('internal: erasure check failed for fn %s' % fn)
+        for l, f in zip(out_lines, flags):
+            if f and not (GHOST_LINE.match(l) or CONT_LINE.match(l)):
+                raise Lost('internal: overlay line is not ghost code: %r' % l)
+        base = lineno()
+        for k, (l, f) in enumerate(zip(out_lines, flags)):
+            m = re.search(r'// @OBL (C\d\d\.[A-Za-z0-9\-]+)', l)
+            if f and m:
+                obl_at[base + k + 1] = m.group(1)
+            n_inserted += 1 if f else 0
+        fn_span[fn] = (base + 1, base + len(out_lines))
+        gen.append('\n'.join(out_lines))
+        gen.append('}')
+    gen.append('} // verus!\nfn main() {}')
     info = {'items': {n: {'line': v['first_line'], 'sha256': v['sha256']} for n, v in items.items()},
             'transformations': notes, 'overlay_ghost_lines': n_inserted,
-            'erasure_check': 'passed: verified text minus overlay lines == extracted text after rewrites P0-P4, byte for byte',
+            'erasure_check': 'passed: verified text minus overlay lines == extracted text after rewrites P0-P4 / Q0-Q3, byte for byte, for both functions',
             'syntactic_side_conditions': ['exactly one `while`, no `loop`/`for`', 'every is_closed / next / poll_pending call has the expected argument shape', 'no call outside {is_closed, next, poll_pending, borrow_mut, enum constructors}', 'identifiers `tr` / `ret` unused by the code'],
             'not_verified': 'termination of the loop (exec_allows_no_decreases_clause): it runs as long as the callback answers true and the batches are empty'}
     return '\n'.join(gen) + '\n', obl_at, fn_span, info
